@@ -542,7 +542,29 @@ func prop(c Case) error {
 			}
 		}
 	}
+	// ... nor storage shared with a later result of the same shape: a sibling of the
+	// geometry (same structure, EMPTY where it is EMPTY, other ordinates, other SRIDs,
+	// the other byte order) is decoded by every route
+	sib := g.Mapped(func(x float64) float64 { return 2*x + 1 })
+	var bump func(m *model.G)
+	bump = func(m *model.G) {
+		m.SRID += 1000
+		for i := range m.Members {
+			bump(&m.Members[i])
+		}
+	}
+	bump(sib)
+	if sb, _, err := refwkb.Encode(sib, !c.XDR, refMode); err == nil {
+		for i := 0; i < 2; i++ {
+			_, _ = cd.unmarshal(sb)
+			_, _ = cd.read(bytes.NewReader(sb))
+			_, _ = cd.hexDec(hex.EncodeToString(sb))
+		}
+	}
 	if err := sameModel("the geometry returned by Unmarshal, looked at again after later decodes", exp, dec, true); err != nil {
+		return err
+	}
+	if err := sameModel("the geometry returned by hex Decode, looked at again after later decodes", exp, hg, true); err != nil {
 		return err
 	}
 	if !bytes.Equal(got, want) {
